@@ -221,3 +221,9 @@ def _r20_5(ctx):
 MUTANTS = [{'name': 'seeded-C20-a', 'patch': 'C20-a/patch.diff', 'expect': ('R20.4', 'select_outgoing', '')},
            {'name': 'seeded-C20-b', 'patch': 'C20-b/patch.diff', 'expect': ('R20.2', 'select_cardinal_utxo', '')},
            {'name': 'amount-minus-one-again', 'file': 'src/wallet/transaction_builder.rs', 'old': 'amount.saturating_sub(1)', 'new': 'amount - 1', 'expect': ('R20.5', 'select_outgoing', 'arith:Sub(')}]
+
+
+# behaviour-preserving pack (thorough tier)
+NEUTRAL = [
+  {'name': 'cardinal exclusion terms reordered', 'file': 'src/wallet/transaction_builder.rs', 'old': '      if self.runic_utxos.contains(utxo)\n        || inscribed_utxos.contains(utxo)\n        || self.locked_utxos.contains(utxo)\n      {', 'new': '      if self.locked_utxos.contains(utxo)\n        || self.runic_utxos.contains(utxo)\n        || inscribed_utxos.contains(utxo)\n      {'},
+]
